@@ -19,6 +19,9 @@
 #include "cstl/memory.h"
 #include <string.h>
 #include <stdio.h>
+#include <sched.h>
+#include <unistd.h>
+#include <sys/syscall.h>
 
 #define NS 3
 #define NW 3
@@ -141,7 +144,10 @@ static void *last_unique_priv;
 static void unique_clr2(void *mem, void *priv) { last_unique_priv = priv; unique_clr(mem, priv); }
 static void unique_release_sentinel(void *mem, void *priv) { (void)mem; (void)priv; }      /* never called: marks "out-parameter not written" */
 
-static void call_begin(void) { vrt_ev_begin(); ev_consumed = 0; nobs = 0; clr_bad = 0; ev_lost = 0; gdepth = 0; }
+static unsigned long yields;    /* sched_yield() calls the library made since the last call_begin (see sched_yield below) */
+static int cur_k;               /* kind of the op st_apply is executing (0: a scripted raw call) */
+static int yield_armed;         /* between call_begin and call_end (run_big: for the whole case) */
+static void call_begin(void) { vrt_ev_begin(); ev_consumed = 0; nobs = 0; clr_bad = 0; ev_lost = 0; gdepth = 0; yields = 0; yield_armed = 1; }
 
 /* predicted event list */
 static struct mev want[MAXEV];
@@ -156,6 +162,7 @@ static void call_end(const char *entry)
 {
     int i;
     char key[128];
+    yield_armed = 0;
     sync_alloc_events();
     VRT_CHECK(clr_bad != 1, "memory.clear.wrong-priv", "%s: clear callback received an unexpected priv", entry);
     VRT_CHECK(clr_bad != 2, "memory.clear.null", "%s: clear callback invoked with NULL", entry);
@@ -255,7 +262,7 @@ static int reaches_rec(int from, int to)
 static int reaches(int from, int to) { visid++; return reaches_rec(from, to); }
 
 /* ---- audits ---- */
-static void audit(void)
+static void audit_ptrs(void)            /* the part of the audit that costs O(pointers): get()/unique() of every shared pointer object */
 {
     int i;
     for (i = 0; i < ns; i++) {
@@ -272,6 +279,11 @@ static void audit(void)
                       "shared %d: unique() = %d with %d owners and %d weak references", i, (int)u, a->owners, a->weaks);
         }
     }
+}
+static void audit(void)
+{
+    int i;
+    audit_ptrs();
     for (i = 0; i < nu; i++) {
         void *g = cstl_unique_ptr_get(&U[i]);
         if (Ua[i] < 0) VRT_CHECK(g == NULL, "memory.unique_ptr.get.empty-not-null", "unique %d empty in the model, get() = %p", i, g);
@@ -324,6 +336,29 @@ enum {
 #define OP_B(o) (((o) >> 12) & 15)
 #define OP_C(o) ((o) >> 16)
 
+/* The library's wait loop (weak_ptr_lock) spins on sched_yield().  Every history in this harness is single-threaded:
+ * nobody else exists who could release what the call waits for, so a call that keeps yielding never returns.  This
+ * definition takes precedence over libc's: a deterministic verdict after 2^20 yields inside one call instead of minutes
+ * in the runtime's CPU-time hang detector (which still covers waits that do not yield).  The unmodified library never
+ * gets here single-threaded. */
+int sched_yield(void)
+{
+    static const char *const entry[K_NK] = {
+        [K_SALLOC] = "shared_ptr.alloc", [K_SHARE] = "shared_ptr.share", [K_SSWAP] = "shared_ptr.swap", [K_SRESET] = "shared_ptr.reset",
+        [K_WFROM] = "weak_ptr.from", [K_WLOCK] = "weak_ptr.lock", [K_WSWAP] = "weak_ptr.swap", [K_WRESET] = "weak_ptr.reset",
+        [K_UALLOC] = "unique_ptr.alloc", [K_URELEASE] = "unique_ptr.release", [K_USWAP] = "unique_ptr.swap", [K_URESET] = "unique_ptr.reset",
+        [K_GEMBED] = "shared_ptr.share", [K_GSWAP] = "shared_ptr.swap", [K_GWEAK] = "weak_ptr.from", [K_GLOCK] = "weak_ptr.lock",
+    };
+    if (!yield_armed) return (int)syscall(SYS_sched_yield);    /* not the library: the supervisor process, a sanitizer runtime */
+    VRT_COUNT("wait.sched-yield-in-a-single-threaded-call");
+    if (++yields == (1ul << 20)) {
+        char key[96];
+        snprintf(key, sizeof(key), "memory.hang.waits-forever-single-threaded.%s", cur_k > 0 && cur_k < K_NK ? entry[cur_k] : "scripted-call");
+        vrt_fail(key, "the call yielded the CPU 2^20 times waiting for something nobody else can do in a single-threaded program");
+    }
+    return 0;
+}
+
 static const char *ownclass(int a)
 {
     if (a < 0) return "empty";
@@ -344,7 +379,7 @@ static int st_apply(uint32_t op, int do_audit)
     const size_t size = OP_C(op);
     int x, i;
 
-    nwant = 0; callid++; mdepth = 0;
+    nwant = 0; callid++; mdepth = 0; cur_k = k;
     switch (k) {
     case K_SALLOC: {
         if (a >= ns) return 0;
@@ -829,7 +864,7 @@ static void run_big(uint64_t which)
     void *mem;
     int i, cleared = 0;
     vrt_case_note("big: one allocation shared by %d owners (%s)", NBIG, which ? "self-weak memory" : "plain");
-    clear_hook_count = &cleared;
+    clear_hook_count = &cleared; cur_k = 0; yields = 0; yield_armed = 1;
     cstl_shared_ptr_init(&first); cstl_shared_ptr_init(&probe); cstl_weak_ptr_init(&w);
     VRT_OP1("shared_ptr.alloc", "size 64 (big case %ld)", which);
     cstl_shared_ptr_alloc(&first, 64, big_clr);
@@ -864,7 +899,7 @@ static void run_big(uint64_t which)
     cstl_weak_ptr_reset(&w);
     VRT_CHECK(vrt_lib_live() == 0, "memory.big.leak", "%zu blocks live at the end", vrt_lib_live());
     vrt_free(X);
-    clear_hook_count = NULL;
+    clear_hook_count = NULL; yield_armed = 0;
     VRT_COUNT("big.cases");
     vrt_sig(0, 0xb16 + which);
 }
@@ -948,20 +983,176 @@ static void run_shape(uint64_t i)
     else if (i == 2) shape_fan();
     else shape_diamond((int)(i - 3));
 }
+/* ---- long repetition over ONE allocation's lifetime ----
+ * The big case holds 70 000 owners at once; here one allocation (kept alive by the single owner S0, or expired with only
+ * weak references left) sees 70 000 (thorough 300 000) cycles of each kind of call that takes and gives back a reference:
+ * hidden per-allocation state that advances per CALL (tickets, sequence/generation numbers, narrow or saturating
+ * counters) passes 2^8 and 2^16 although the number of references never exceeds a handful.  Every call goes through
+ * st_apply (exact clear/free event prediction, lock result), followed by get()/unique() of every shared pointer object;
+ * the full audit (live block count, every record) runs at the start, around every power of two and at the end.
+ * v & 1: expired; (v >> 1) % 3: 0 plain, 1 re-target (alloc onto the same pointer) every ~1000 cycles, 2 a crowd of 70 000
+ * additional weak references to the same allocation exists meanwhile; v / 6: kind of managed memory. */
+#define NREP 24                 /* {live, expired} x {plain, re-target, crowd} x 4 kinds of managed memory */
+#define NREPPHASE 7
+static int rep_full;
+static int rep_checkpoint(uint64_t i, uint64_t n)       /* first cycles, 2^k - 1, 2^k, 2^k + 1, last cycles */
+{
+    return i < 4 || i + 2 >= n || (i & (i - 1)) == 0 || ((i + 1) & i) == 0 || ((i - 1) & (i - 2)) == 0;
+}
+static void rep_op(uint32_t op)
+{
+    if (!st_apply(op, 0)) vrt_fail("harness.memory.shape-op-not-applicable", "repetition op %#x was not applicable", (unsigned)op);
+    if (rep_full) audit(); else audit_ptrs();
+}
+static void run_rep(uint64_t v)
+{
+    static const int sizes[4] = { 24, 25, 26, GCLOSURE_SIZE };     /* plain, no clear callback, self-weak, graph block */
+    const int expired = (int)(v & 1), retarget = (int)(v >> 1) % 3 == 1, crowd = (int)(v >> 1) % 3 == 2;
+    const uint64_t n = vrt_thorough ? 300000 : 70000;
+    const uint64_t period = vrt_thorough ? 4000 : 1000;
+    uint64_t i, tot = 0, next;
+    cstl_weak_ptr_t *C = NULL;
+    vrt_rng g;
+    int p, m, sz;
+
+    vrt_rng_seed(&g, vrt_seed, 0xC054E9 + v);
+    sz = sizes[(v / 6) & 3];            /* every variant with every kind of managed memory */
+    next = period / 2 + vrt_below(&g, (uint32_t)period);
+    vrt_case_note("repetition: %llu cycles of each of %d kinds of call on one %s allocation of size %d%s%s",
+                  (unsigned long long)n, NREPPHASE, expired ? "expired (weak references only)" : "live (one owner)", sz,
+                  retarget ? ", re-targeted every ~1000 cycles" : "", crowd ? ", among a crowd of as many weak references" : "");
+    use_macro = (int)(v >> 1) & 1;
+    st_create(SCOPE(3, 3, 0) | SCOPE_G);
+    rep_full = 1;
+    /* W2 remembers an allocation that is gone: the weak reference whose lock must fail, every time */
+    rep_op(OP(K_SALLOC, 2, 0, 24)); rep_op(OP(K_WFROM, 2, 2, 0)); rep_op(OP(K_SRESET, 2, 0, 0));
+    rep_op(OP(K_SALLOC, 0, 0, sz)); rep_op(OP(K_WFROM, 0, 0, 0));
+    m = Sa[0];
+    if (crowd) {
+        C = vrt_alloc(sizeof(*C) * n);
+        memset(C, 0x77, sizeof(*C) * n);
+        for (i = 0; i < n; i++) {
+            cstl_weak_ptr_init(&C[i]);
+            VRT_OP1("weak_ptr.from", "crowd member #%ld <- S0", i);
+            nwant = 0; A[m].weaks++; cur_k = 0;
+            call_begin();
+            cstl_weak_ptr_from(&C[i], &S[0]);
+            call_end("weak_ptr.from");
+            if (rep_checkpoint(i, n)) audit(); else audit_ptrs();
+            VRT_COUNT("rep.crowd.weak-references");
+        }
+    }
+    if (expired) { rep_op(OP(K_WFROM, 1, 0, 0)); rep_op(OP(K_SRESET, 0, 0, 0)); }
+    vrt_sig(0, vrt_mix(st_sig(), 0x4e9 + v));
+
+    for (p = 0; p < NREPPHASE; p++) {
+        for (i = 0; i < n; i++) {
+            rep_full = rep_checkpoint(i, n);
+            if (rep_full) VRT_COUNT("rep.checkpoints");
+            switch (p) {
+            case 0:     /* lock + reset of the lock result (expired: the lock fails and the reset finds nothing) */
+                rep_op(OP(K_WLOCK, 0, 1, 0)); rep_op(OP(K_SRESET, 1, 0, 0));
+                VRT_COUNT("rep.cycles.lock-reset");
+                break;
+            case 1:     /* failed lock of a weak reference whose allocation is gone */
+                rep_op(OP(K_WLOCK, 2, 1, 0));
+                VRT_COUNT("rep.cycles.failed-lock-of-expired");
+                break;
+            case 2:
+                rep_op(OP(K_SHARE, 0, 1, 0)); rep_op(OP(K_SRESET, 1, 0, 0));
+                VRT_COUNT("rep.cycles.share-reset");
+                break;
+            case 3:
+                rep_op(OP(K_WFROM, 1, 0, 0)); rep_op(OP(K_WRESET, 1, 0, 0));
+                VRT_COUNT("rep.cycles.weak-from-reset");
+                break;
+            case 4:     /* swap back and forth: owners, then weak references */
+                rep_op(OP(K_SSWAP, 0, 1, 0)); rep_op(OP(K_SSWAP, 0, 1, 0));
+                rep_op(OP(K_WSWAP, 0, 1, 0)); rep_op(OP(K_WSWAP, 0, 1, 0));
+                VRT_COUNT("rep.cycles.swap-back-and-forth");
+                break;
+            case 5:     /* unique() polls: the first half with the owner as the only reference (true every time), then not */
+                if (!expired && !crowd && (i == 0 || i == n / 2)) rep_op(i == 0 ? OP(K_WRESET, 0, 0, 0) : OP(K_WFROM, 0, 0, 0));
+                VRT_OP1("shared_ptr.unique", "poll #%ld", i);
+                audit_ptrs();
+                if (Sa[0] >= 0 && A[Sa[0]].owners + A[Sa[0]].weaks == 1) VRT_COUNT("rep.polls.unique.true-on-the-only-reference");
+                VRT_COUNT("rep.polls.unique");
+                break;
+            default:    /* interleaved mixture; S0 (live) / W0 (expired) keep the allocation and are only ever sources */
+                switch (vrt_below(&g, 16)) {
+                case 0: rep_op(OP(K_WLOCK, 0, 1, 0)); break;
+                case 1: rep_op(OP(K_WLOCK, 0, 2, 0)); break;
+                case 2: rep_op(OP(K_SHARE, 0, 1, 0)); break;
+                case 3: rep_op(OP(K_SHARE, 1, 2, 0)); break;
+                case 4: rep_op(OP(K_SHARE, 2, 1, 0)); break;
+                case 5: rep_op(OP(K_SRESET, 1, 0, 0)); break;
+                case 6: rep_op(OP(K_SRESET, 2, 0, 0)); break;
+                case 7: rep_op(OP(K_WFROM, 1, 0, 0)); break;
+                case 8: rep_op(OP(K_WFROM, 1, 1, 0)); break;
+                case 9: rep_op(OP(K_WRESET, 1, 0, 0)); break;
+                case 10: rep_op(OP(K_SSWAP, 1, 2, 0)); break;
+                case 11: rep_op(OP(K_WSWAP, 0, 1, 0)); rep_op(OP(K_WSWAP, 0, 1, 0)); break;
+                case 12: rep_op(OP(K_WLOCK, 2, 2, 0)); break;
+                case 13: rep_op(OP(K_WLOCK, 1, 1, 0)); break;
+                case 14: rep_op(OP(K_SSWAP, 0, 1, 0)); rep_op(OP(K_SSWAP, 0, 1, 0)); break;
+                default: rep_op(OP(K_WLOCK, 1, 2, 0)); break;
+                }
+                VRT_COUNT("rep.cycles.mixture");
+                break;
+            }
+            if (retarget && ++tot >= next) {
+                /* alloc onto the pointer that (live variant) owns the allocation; the weak references follow */
+                rep_full = 1;
+                sz = sizes[vrt_below(&g, 4)];
+                if (Sa[0] >= 0 && A[Sa[0]].owners == 1) VRT_COUNT("rep.retargets.over-the-last-owner");
+                rep_op(OP(K_SALLOC, 0, 0, sz)); rep_op(OP(K_WFROM, 0, 0, 0));
+                if (expired) { rep_op(OP(K_WFROM, 1, 0, 0)); rep_op(OP(K_SRESET, 0, 0, 0)); }
+                next = tot + period / 2 + vrt_below(&g, (uint32_t)period);
+                VRT_COUNT("rep.retargets");
+            }
+        }
+        vrt_sig(0, vrt_mix(st_sig(), 0x4e90 + p));
+    }
+    rep_full = 1;
+    if (crowd) {
+        /* live variant: the crowd leaves first (nothing may happen), then the owner; expired variant: everything else
+         * leaves first, the bookkeeping block goes with the last member of the crowd, not before */
+        if (expired) {
+            for (p = 0; p < 3; p++) { rep_op(OP(K_SRESET, p, 0, 0)); rep_op(OP(K_WRESET, p, 0, 0)); }
+            VRT_CHECK(!A[m].book_freed && vrt_lib_block(A[m].book, NULL) != NULL, "memory.rep.bookkeeping-gone-with-weak-references-left",
+                      "the bookkeeping block is gone although the crowd still refers to it");
+        }
+        for (i = 0; i < n; i++) {
+            VRT_OP1("weak_ptr.reset", "crowd member #%ld", i);
+            nwant = 0; callid++; mdepth = 0; cur_k = 0;
+            model_drop_weak(m);
+            call_begin();
+            cstl_weak_ptr_reset(&C[i]);
+            call_end("weak_ptr.reset");
+            if (rep_checkpoint(i, n)) audit(); else audit_ptrs();
+        }
+        if (expired) VRT_CHECK(A[m].book_freed, "harness.memory.rep-model", "model: bookkeeping block should be gone with the last crowd member");
+        vrt_free(C);
+    }
+    st_destroy();
+    if (expired) VRT_COUNT("rep.cases.expired"); else VRT_COUNT("rep.cases.live");
+    if (!retarget) VRT_MAX("max.rep.cycles-of-one-kind-on-one-allocation", n);
+}
 #define NBIGCASES 2
 static uint64_t nrandom(void) { return vrt_thorough ? 800000 : 150000; }
 static uint64_t ncases(void)
 {
     if (vrt_thorough) { scopes = thorough_scopes; nscopes = sizeof(thorough_scopes) / sizeof(scopes[0]); }
     else { scopes = quick_scopes; nscopes = sizeof(quick_scopes) / sizeof(scopes[0]); }
-    return nscopes + NBIGCASES + NSHAPES + nrandom();
+    return nscopes + NBIGCASES + NSHAPES + NREP + nrandom();
 }
 static void run_case(uint64_t idx)
 {
     if (idx < (uint64_t)nscopes) run_closure((int)idx);
     else if (idx < (uint64_t)nscopes + NBIGCASES) run_big(idx - nscopes);
     else if (idx < (uint64_t)nscopes + NBIGCASES + NSHAPES) run_shape(idx - nscopes - NBIGCASES);
-    else run_random(idx - nscopes - NBIGCASES - NSHAPES);
+    else if (idx < (uint64_t)nscopes + NBIGCASES + NSHAPES + NREP) run_rep(idx - nscopes - NBIGCASES - NSHAPES);
+    else run_random(idx - nscopes - NBIGCASES - NSHAPES - NREP);
 }
 static void winit(void) { (void)ncases(); vrt_sig_name(0, "ownership-states"); }
 static const char *const required[] = {
@@ -973,7 +1164,12 @@ static const char *const required[] = {
     "event.clear.graph", "graph.nested-destruction", "graph.drop.child-with-another-owner-survives", "graph.fan.some-children-die-some-survive",
     "graph.fan.several-children-die", "graph.diamond.destroyed-by-its-second-dying-parent", "graph.weak-to-dying-block-reset-inside-its-clear",
     "op.graph.move-in.only-owner-now-embedded", "op.graph.embed.over-last-owner", "op.graph.lock", "closure.graph.states",
-    "shape.chain", "shape.fan", "shape.diamond", NULL
+    "shape.chain", "shape.fan", "shape.diamond",
+    /* long repetition on one allocation */
+    "rep.cases.live", "rep.cases.expired", "rep.cycles.lock-reset", "rep.cycles.failed-lock-of-expired", "rep.cycles.share-reset",
+    "rep.cycles.weak-from-reset", "rep.cycles.swap-back-and-forth", "rep.polls.unique", "rep.polls.unique.true-on-the-only-reference",
+    "rep.cycles.mixture", "rep.retargets", "rep.retargets.over-the-last-owner", "rep.checkpoints", "rep.crowd.weak-references",
+    "max.rep.cycles-of-one-kind-on-one-allocation", NULL
 };
 static const struct vrt_harness H = { "memory", ncases, run_case, winit, NULL, required, 16 };
 int main(int argc, char **argv) { return vrt_main(argc, argv, &H); }
